@@ -37,6 +37,16 @@ def family(ctx):
         out.append(progs.render({"x": 2}, progs.frame([[f"await 0 1 {lo}", "fadd 1 1 rlx"], ["st 0 1 rel", "fadd 1 1 rlx"]], [], [])))
         out.append(progs.render({"x": 2}, progs.frame([["park", "st 0 1 rel", "fadd 1 1 rlx"],
                                                        ["unpark 1", f"await 0 1 {lo}", "fadd 1 1 rlx"]], [], [])))
+    # the loop written yield-first (`loop { yield_now(); if x.load(ord) == v { break } }`): the waiter is in the yielded
+    # state before the flag is written, whatever the schedule; writer before / after the waiter in spawn order, and main
+    for lo in LD:
+        for w_first in (True, False):
+            wr, wa = ["st 0 1 rel", "fadd 1 1 rlx"], ["yield", f"await 0 1 {lo}", "fadd 1 1 rlx"]
+            out.append(progs.render({"x": 2}, progs.frame([wr, wa] if w_first else [wa, wr], [], [])))
+        out.append(progs.render({"x": 2}, progs.frame([["yield", f"await 0 1 {lo}", "fadd 1 1 rlx"]], ["st 0 1 rel", "fadd 1 1 rlx"], [])))
+        out.append(progs.render({"x": 2}, progs.frame([["st 0 1 rel", "fadd 1 1 rlx"]], ["yield", f"await 0 1 {lo}", "fadd 1 1 rlx"], [])))
+        out.append(progs.render({"x": 3}, progs.frame([["st 0 1 rel", "fadd 1 1 rlx"], ["yield", f"await 0 1 {lo}", "fadd 1 1 rlx", "st 2 1 rel"],
+                                                       [f"await 2 1 {lo}", "fadd 1 1 rlx"]], [], [])))
     # waiter that also takes a lock
     out.append(progs.render({"x": 1, "m": 1, "c": 1}, progs.frame([["await 0 1 acq", "lock 0", "crd 0", "unlock 0"]],
                                                                    ["lock 0", "cwr 0 3", "unlock 0", "st 0 1 rel"], [])))
@@ -96,7 +106,8 @@ def run(ctx):
     ctx.std_flow(programs, 5000 if ctx.quick else 50000, "explore", failures,
                  "a waiter spinning with yield (`await x v ord` = loop { if x.load(ord)==v {break}; yield_now() }) on a flag "
                  "another thread writes once: all store/load orderings, the loop first/middle/last, writer and waiter as "
-                 "main or spawned, flag set by RMW / release sequence, two waiters on different flags, plus seeded random "
+                 "main or spawned, flag set by RMW / release sequence, two waiters on different flags, the writer going on after the "
+                 "flag (both take a ticket), the loop written yield-first, plus seeded random "
                  "surroundings; the run must pass and explore every exit outcome of the blocking-read reference; loops "
                  "whose condition never holds must hit the branch limit; explorer-twin correspondence incl. yield "
                  "bookkeeping; non-trivial = more than one iteration")
